@@ -41,6 +41,17 @@ def run(ctx):
         body = op(5, op(4, E, junk))
         pool.append((gen.tt(op(2, q(body), q(b""))), gen.tt(b""), "directed-gc-small"))
         pool.append((gen.tt(op(4, op(2, q(body), q(b"")), op(2, q(body), q(b"")))), gen.tt(b""), "directed-gc-small"))
+    # both evaluation orders (arguments are evaluated last to first): the kept value made BEFORE the
+    # garbage, from operands that predate the checkpoint (the environment: a heap atom that is the most
+    # recent allocation when the run starts), and AFTER it
+    envs = [b"seeded-heap-atom-env", b"\x00\x05", bytes(range(60)), b"\x01\x02\x03\x04\x05"]
+    junk2 = op(23, q(i2a(1)), q(i2a(9000)))                       # lsh: a 1126-byte number
+    for env in envs:
+        for E in (op(14, i2a(1), q(b"x")), op(14, i2a(1), i2a(1)), op(14, q(b""), i2a(1), q(b"yz")), op(12, i2a(1), q(i2a(1))),
+                  op(12, i2a(1), q(b""), q(i2a(2))), op(14, op(12, i2a(1), q(i2a(1))), q(b"tail")), op(11, i2a(1)), i2a(1)):
+            for J in (junk, junk2):
+                pool.append((gen.tt(op(2, q(op(6, op(4, J, E))), i2a(1))), gen.tt(env), "directed-gc-order"))
+                pool.append((gen.tt(op(2, q(op(5, op(4, E, J))), i2a(1))), gen.tt(env), "directed-gc-order"))
     pairs = []
     for p, e, tag in pool:
         f = runlib.pick_flags(r, tag, 0.15, exclude=FLAG["ENABLE_GC"])
